@@ -107,6 +107,14 @@ def assign_registers(data: CodeData, code: list[IC10Instruction]):
 
     for scope in sorted_scopes:
         if not scope in data.symbols:
+            # a scope without register symbols of its own still has to pass the registers
+            # blocked by its callers on to the scopes it calls
+            blocked_registers_by_scope[scope] = set().union(
+                *[
+                    blocked_registers_by_scope.get(calling_scope, set())
+                    for calling_scope in called_from.get(scope, set())
+                ]
+            )
             continue
         available_registers = set(registers)
         parent_registers = set()
